@@ -431,7 +431,7 @@ func c15GenPath(t *rapid.T) string {
 	n := rapid.IntRange(0, 4).Draw(t, "nparts")
 	if rapid.IntRange(0, 7).Draw(t, "longPath") == 0 {
 		// entries around and beyond 64 / 128 / 256 bytes
-		n = rapid.SampledFrom([]int{10, 12, 16, 20, 24, 32, 40, 64}).Draw(t, "npartsLong")
+		n = rapid.SampledFrom([]int{10, 12, 16, 20, 24, 32, 40, 64, 128, 512, 700, 1024}).Draw(t, "npartsLong") // to beyond 4 096 bytes
 	}
 	s := rapid.SampledFrom([]string{"", "", "", "/", "\\", "%2f", "%5C", "./", "../", "..\\"}).Draw(t, "lead")
 	if rapid.IntRange(0, 5).Draw(t, "blankLead") == 0 {
@@ -522,7 +522,7 @@ func c15GenManifest(t *rapid.T) c15Input {
 			in.SchemaLine, in.SchemaCol = w.line, w.col
 			w.emit("1.2") // float, not a string
 		case 2:
-			in.SchemaLine, in.SchemaCol = scalar(rapid.SampledFrom([]string{"1.1", "1.20", " 1.2", "1.2 ", "", "2"}).Draw(t, "badSchema"), false, 0)
+			in.SchemaLine, in.SchemaCol = scalar(rapid.SampledFrom([]string{"1.1", "1.20", " 1.2", "1.2 ", "", "2", "01.2", "1.02", "001.002", "+1.2", "1.+2", "1.2.0", "v1.2", "1,2", "1.2e0", "１.２", "1.２"}).Draw(t, "badSchema"), false, 0)
 		default:
 			in.SchemaLine, in.SchemaCol = scalar("1.2", false, 0)
 			in.SchemaOK = true
